@@ -8,6 +8,9 @@ Streams
             INSTALLED in a rig handler and driven with the matching line/call events (3 hits each, scripted clock):
             snapshot pushed / log emitted / metric call / span opened are observed per tracepoint id and per place;
   register  the same tracepoints registered in code (TracepointConfigService.add_custom) and driven the same way.
+  redeliver multi-action tracepoints x a SECOND UPDATE response that still contains them (same set / others added or
+            removed / reordered) x hits after (and, where it cannot matter, before) the re-delivery, through the real
+            convert_response + update_new_config; every action judged on its own fire count / fire period;
   both      one tracepoint through BOTH paths (convert_response of its protobuf message / add_custom): the same trigger;
   providers ONE tracepoint with 2-4 metric definitions, installed (from a response or registered) beside 2-3 recording
             metric providers, some of which RAISE for some definitions (the first, a middle one, the last, several):
@@ -37,7 +40,10 @@ RULE = ('table: every combination of stage{absent,6 stages,unknown} x method_nam
         'response/register: 1-7 tracepoints over 2 files x 3 lines x 2 methods (so locations collide), own condition '
         '(true/false/raising/absent), fire_count, fire_period, watches, 0-2 metric definitions with static/expression '
         'labels, unknown stages mixed in; installed and driven 3 times per place with a scripted clock. Non-trivial = '
-        'two tracepoints share a location or an uninterpretable tracepoint sits next to interpretable ones. both: one '
+        'two tracepoints share a location or an uninterpretable tracepoint sits next to interpretable ones. redeliver: 1-4 tracepoints, at least one '
+        'with 2-4 actions (snapshot/log + metrics + span), delivered in two UPDATE responses (second: same set, added, removed, '
+        'reordered), 0-2 hits before (only when a reset of the limits at the re-delivery could not change what is asked for) and 1-3 hits after the re-delivery; per action effects '
+        'against that action\'s own limits; non-trivial = a tracepoint asks for two or more kinds of effect after the re-delivery. both: one '
         'tracepoint from a response and registered in code must give the same trigger (theorem c11_registered_as_service). providers: one '
         'tracepoint with 2-4 metric definitions and 2-3 metric providers of which 0-2 raise for 1-2 definitions each '
         '(first / middle / last), from a response or registered, driven once or twice: every (definition, provider) '
@@ -207,12 +213,12 @@ def live_after(case, phase):
     return [i for i in range(len(case['tps'])) if i not in gone]
 
 
-def expected_effects(case, phase=0, hist=None):
+def expected_effects(case, phase=0, hist=None, live=None):
     """per driven place, per tracepoint index: how many snapshots / log lines / metric calls / spans.
     `hist[i]`: the hits tracepoint i has already seen while installed (its limits go on counting)"""
     out = []
     hist = hist if hist is not None else {}
-    live = live_after(case, phase)
+    live = live_after(case, phase) if live is None else live
     for place in case['places']:
         per = {}
         for i, tp in enumerate(case['tps']):
@@ -597,8 +603,56 @@ def run_both(case):
         rig.close()
 
 
+def run_redeliver(case):
+    """two UPDATE poll responses through the real convert_response + TracepointConfigService.update_new_config (what
+    LongPoll.poll does), hits after each: a tracepoint that is still in the second response keeps ALL its actions, each
+    with its own fire count / fire period"""
+    import deep.grpc as g
+    rig = ClockedRig(metric=True, span=True)
+    try:
+        svc = rig.config.tracepoints
+        svc.set_task_handler(Inline())
+        id_to_idx = {tp['id']: i for i, tp in enumerate(case['tps'])}
+        id_to_idx.update(case['metric_owner_idx'])
+        obs = {'phases': []}
+        for p, which in enumerate((case['first'], case['second'])):
+            try:
+                triggers = g.convert_response([proto_tp(case['tps'][i]) for i in which])
+                if p == 1:
+                    obs['triggers'] = [dump_trigger(t) for t in triggers]
+                svc.update_new_config(p + 1, 'h%d' % (p + 1), triggers)
+            except Exception as e:  # noqa: B902
+                obs['raised'] = f'UPDATE response {p + 1}: {type(e).__name__}: {e}'
+                return obs
+            try:
+                eff, _ = drive(rig, case, id_to_idx, p)
+            except BaseException as e:  # noqa: B902
+                obs['raised'] = f'trace_call after UPDATE response {p + 1}: {type(e).__name__}: {e}'
+                return obs
+            obs['phases'].append(eff)
+        return obs
+    finally:
+        rig.close()
+
+
+def redeliver_expected(case, reset):
+    """per phase, per place, per tracepoint: the effects its arguments ask for.  `reset`: the second delivery starts the
+    limits of a still-present tracepoint afresh (what the agent does today, known finding C04/update-resets-count) or
+    not (the statement's reading) — the generator only emits cases on which both readings ask for the same"""
+    hist = {}
+    e0 = expected_effects(case, 0, hist, live=list(case['first']))
+    if reset:
+        hist = {}
+    else:
+        hist = {i: h for i, h in hist.items() if i in case['second']}
+    e1 = expected_effects(case, 1, hist, live=list(case['second']))
+    return [e0, e1]
+
+
 def run_impl(case):
     k = case['kind']
+    if k == 'redeliver':
+        return run_redeliver(case)
     if k == 'both':
         return run_both(case)
     if k == 'providers':
@@ -678,6 +732,25 @@ def oracle(case, obs):
     v = []
     if k == 'providers':
         return oracle_providers(case, obs)
+    if k == 'redeliver':
+        if 'raised' in obs:
+            return ['the configuration was lost / the handler raised: ' + obs['raised']]
+        exp = redeliver_expected(case, reset=False)
+        names = {'snap': 'snapshot', 'log': 'log line', 'metric': 'metric call', 'span': 'span'}
+        for p, (got_p, exp_p) in enumerate(zip(obs['phases'], exp)):
+            for place, got_e, exp_e in zip(case['places'], got_p, exp_p):
+                for i in sorted(set(got_e) | set(exp_e)):
+                    ge, ee = got_e.get(i, {}), exp_e.get(i, {})
+                    for kind in ('snap', 'log', 'metric', 'span'):
+                        if ge.get(kind, 0) != ee.get(kind, 0):
+                            tpd = case['tps'][int(i)] if i.isdigit() else None
+                            v.append(f'after UPDATE response {p + 1} (tracepoints {case["second"] if p else case["first"]}, '
+                                     f'tracepoint {i} is in both: {tpd is not None and int(i) in case["first"] and int(i) in case["second"]}) '
+                                     f'at {place["place"]}: tracepoint {i} '
+                                     f'({json.dumps(tpd["args"], sort_keys=True) if tpd else "?"}, {len(tpd["metrics"]) if tpd else "?"} metric '
+                                     f'definitions) produced {ge.get(kind, 0)} {names[kind]}(s) over hits at '
+                                     f'{phase_tss(place, p)}; that action\'s own fire count / fire period ask for {ee.get(kind, 0)}')
+        return v[:8]
     if k == 'both':
         exp = spec_trigger(case['tp'])
         for path in ('service', 'code'):
@@ -788,6 +861,8 @@ def model_request(case, obs):
         return dict(case['tp'], op='build')
     if k == 'both':
         return dict(case['tp'], op='build')
+    if k == 'redeliver':
+        return {'op': 'response', 'tps': [case['tps'][i] for i in case['second']]} if 'triggers' in obs else None
     if k == 'providers':
         return None          # what a provider receives is C17's model; here the statement is judged on the real code
     if k == 'register':
@@ -802,6 +877,12 @@ def compare(case, obs, resp):
     if 'error' in resp:
         return ['model error: ' + resp['error']]
     k = case['kind']
+    if k == 'redeliver':
+        if resp.get('lost'):
+            return ['model: the whole response is lost; implementation converted it']
+        return [] if obs['triggers'] == resp['triggers'] else [
+            f'second response: implementation {json.dumps(obs["triggers"], sort_keys=True)[:400]} model '
+            f'{json.dumps(resp["triggers"], sort_keys=True)[:400]}']
     if k == 'both':
         want = [] if resp['trigger'] is None else [resp['trigger']]
         return [f'{path} path: implementation {json.dumps(obs[path], sort_keys=True)[:300]} model '
@@ -991,6 +1072,80 @@ def table_cases():
             yield {'kind': 'table', 'lo': lo, 'hi': lo + CHUNK, 'metrics': metrics, 'watches': ['x'] if metrics else []}
 
 
+def n_actions(tp):
+    return len(spec_actions(tp)) if spec_location(tp) is not None else 0
+
+
+def gen_redeliver(rng):
+    """multi-action tracepoints x re-delivery x hits"""
+    while True:
+        n = rng.choice([1, 2, 2, 3, 4])
+        tps, conds = [], []
+        for i in range(n):
+            tp, c = gen_tp(rng, i)
+            if i == 0 or rng.random() < 0.5:
+                # make it a tracepoint with several actions that the agent can interpret and that is allowed to act
+                tp['args'].pop('stage', None) if tp['args'].get('stage') not in LINE_STAGES + METHOD_STAGES else None
+                if rng.random() < 0.7 and not tp['metrics']:
+                    tp['metrics'] = [gen_metric(rng, 'm_%d_%d' % (i, j)) for j in range(rng.choice([1, 2]))]
+                if rng.random() < 0.6 or not tp['metrics']:
+                    tp['args']['span'] = rng.choice(['line', 'method']) if 'method_name' in tp['args'] else 'line'
+                    if tp['args']['span'] == 'line' and 'method_name' in tp['args'] and 'stage' not in tp['args']:
+                        pass
+                if rng.random() < 0.4:
+                    tp['args'].update(snapshot='no_collect', log_msg='hit {x}')
+                if c in ('false', 'raise'):
+                    c = rng.choice([None, 'true'])
+                    tp['args'].pop('condition', None)
+                    if c == 'true':
+                        tp['args']['condition'] = 'c%d' % i
+                if rng.random() < 0.5:
+                    tp['args'].pop('fire_count', None)
+                    tp['args'].pop('fire_period', None)
+            if tps and rng.random() < 0.3:
+                o = rng.choice(tps)
+                tp['path'], tp['line'] = o['path'], o['line']
+            tps.append(tp)
+            conds.append(c)
+        multi = [i for i, tp in enumerate(tps) if n_actions(tp) >= 2]
+        if not multi:
+            continue
+        first = [i for i in range(n) if i in multi or rng.random() < 0.7]
+        second = [i for i in range(n) if i in multi or rng.random() < 0.6]
+        if rng.random() < 0.35:
+            # a tracepoint that joins (or leaves) the LOCATION of a multi-action tracepoint with the second response
+            tp, c = gen_tp(rng, n)
+            o = tps[rng.choice(multi)]
+            tp['path'], tp['line'] = o['path'], o['line']
+            tp['args'].pop('stage', None)
+            tp['args'].pop('method_name', None)
+            for k2 in ('stage', 'method_name'):
+                if k2 in o['args']:
+                    tp['args'][k2] = o['args'][k2]
+            if tp['args'].get('span') == 'method' and 'method_name' not in tp['args']:
+                tp['args']['span'] = 'line'
+            tps.append(tp)
+            conds.append(c)
+            (second if rng.random() < 0.6 else first).append(n)
+        if rng.random() < 0.5:
+            rng.shuffle(second)                  # the service may order the same tracepoints differently
+        case = finish_case(rng, 'redeliver', tps, conds)
+        n0 = rng.choice([0, 0, 1, 2])
+        if n0 and rng.random() < 0.8:
+            for tp in tps:                   # unlimited: hits before the re-delivery cannot change what is asked for after it
+                tp['args'].update(fire_count='-1', fire_period='0')
+        for pl in case['places']:
+            base, step = pl['tss'][0], (pl['tss'][1] - pl['tss'][0]) or 1
+            pl['more'] = [[base + (3 + k) * step for k in range(rng.choice([1, 2, 3]))]]
+            pl['tss'] = pl['tss'][:n0]
+        case.update(first=first, second=second)
+        if redeliver_expected(case, True) != redeliver_expected(case, False):
+            # hits before the re-delivery make the two readings differ: keep the re-delivery, drop those hits
+            for pl in case['places']:
+                pl['tss'] = []
+        return case
+
+
 def gen_providers(rng):
     n_m = rng.choice([2, 2, 3, 3, 4])
     n_p = rng.choice([2, 2, 3])
@@ -1023,11 +1178,13 @@ def gen(rng, tier):
     yield from table_cases()
     while True:
         r = rng.random()
-        if r < 0.06:
+        if r < 0.10:
+            yield gen_redeliver(rng)
+        elif r < 0.15:
             tp, _ = gen_tp(rng, 0)
             tp['args'].pop('condition', None)
             yield {'kind': 'both', 'tp': tp}
-        elif r < 0.16:
+        elif r < 0.24:
             yield gen_providers(rng)
         elif r < 0.55:
             yield gen_list(rng, 'response')
@@ -1093,6 +1250,12 @@ def corpus():
 # ------------------------------------------------------------------------------------- bookkeeping
 def label(case, obs):
     k = case['kind']
+    if k == 'redeliver':
+        both = [i for i in case['first'] if i in case['second']]
+        return 'redeliver/%s/%s/max%d-actions' % (
+            'hits-before' if any(pl['tss'] for pl in case['places']) else 'hits-after-only',
+            'changed' if sorted(case['first']) != sorted(case['second']) else 'same-set',
+            max([n_actions(case['tps'][i]) for i in both] or [0]))
     if k == 'both':
         return 'both/' + ('uninterpretable' if spec_trigger(case['tp']) is None else
                           '%d-actions' % len(spec_actions(case['tp'])))
@@ -1118,6 +1281,9 @@ def label(case, obs):
 
 
 def nontrivial(case, obs):
+    if case['kind'] == 'redeliver':
+        exp = redeliver_expected(case, False)[1]
+        return any(sum(1 for kind in e if e[kind]) >= 2 for per in exp for e in per.values())
     if case['kind'] == 'providers':
         return any(m < len(case['tp']['metrics']) - 1 for _, m in case['fail'])
     if case['kind'] in ('table', 'build', 'both'):
@@ -1129,6 +1295,23 @@ def nontrivial(case, obs):
 
 def shrink(case):
     k = case['kind']
+    if k == 'redeliver':
+        for which in ('first', 'second'):
+            for j in range(len(case[which])):
+                c = dict(case)
+                c[which] = case[which][:j] + case[which][j + 1:]
+                if redeliver_expected(c, True) == redeliver_expected(c, False):
+                    yield c
+        for i, tp in enumerate(case['tps']):
+            for key in list(tp['args']):
+                if key in ('condition', 'stage', 'method_name'):
+                    continue
+                tps = [dict(t) for t in case['tps']]
+                tps[i] = dict(tp, args={a: b for a, b in tp['args'].items() if a != key})
+                c = dict(case, tps=tps)
+                if redeliver_expected(c, True) == redeliver_expected(c, False):
+                    yield c
+        return
     if k == 'both':
         tp = case['tp']
         for key in list(tp['args']):
